@@ -27,7 +27,7 @@ def tasks(tier):
     out = [("qcow2", dict(data_file=False, backing="none")), ("qcow2", dict(data_file=True, backing="file")),
            ("qcow2", dict(data_file=False, backing="allow_no")),
            ("vdi", {}), ("hds", {}), ("vmdk", {}), ("hyperv", {}), ("envelope", {}),
-           ("vhdx", dict(n_regions=2, n_items=4))]
+           ("vhdx", dict(n_regions=2, n_items=4, regions_canonical=(tier == "quick")))]
     if tier == "thorough":
         out.append(("vhdx", dict(n_regions=2, n_items=5, parent=True, time_budget=3000)))
     return out
